@@ -479,6 +479,7 @@ def make_to_lowercase_model(ctx, multi=False):
     return m_to_lowercase
 
 
+ORB = z3.Function('fold_orbit', z3.BitVecSort(32), z3.BitVecSort(32))       # simple-case-folding orbit representative (regex-syntax)
 LOW = z3.Function('low1', z3.BitVecSort(32), z3.BitVecSort(32))          # lower-case mapping when it is one code point
 KEEPS = z3.Function('low_is_one_cp', z3.BitVecSort(32), z3.BoolSort())   # does c.to_lowercase() have exactly one code point
 LOW_IS2 = z3.Function('low_is_two_cp', z3.BitVecSort(32), z3.BoolSort())
@@ -489,7 +490,9 @@ def lowercase_lemmas(x):
     """facts about std's one-code-point lower-casing that QLEM decides on the real dump for EVERY x; used as axioms
     (instantiated at the input code points) by the obligations that treat the mapping as an uninterpreted function"""
     y = LOW(x)
-    return [z3.Implies(KEEPS(x), z3.And(valid_char(y), y != BV(0x3A3, 32), z3.Or(z3.Not(KEEPS(y)), LOW(y) == y)))] + \
+    return [z3.Implies(KEEPS(x), z3.And(valid_char(y), y != BV(0x3A3, 32), z3.Or(z3.Not(KEEPS(y)), LOW(y) == y))),
+            # ASCII: lower-casing keeps one code point and stays in the regex crate's folding orbit (grex skips the engine round-trip there)
+            z3.Implies(z3.ULT(x, BV(0x80, 32)), z3.And(KEEPS(x), z3.ULT(y, BV(0x80, 32)), ORB(y) == ORB(x)))] + \
            [z3.And(valid_char(f(x)), f(x) != BV(0x3A3, 32)) for f in LOWX]
 
 
@@ -690,7 +693,10 @@ def q04(ctx, idempotence=False):
     ob.paths = paths
     ctx.check_classes(ob)
     ob.verdict = decide(ob.qid, [valid_char(c)] + ob.defs, z3.Or(*bads), [c], all_sat=True, max_models=ctx.cap(ob.qid),
-                        second=ctx.second, workdir=ctx.workdir, second_timeout_s=getattr(ctx, 'second_timeout', 60), timeout_s=300)
+                        second=ctx.second if ctx.tier == 'thorough' else (), workdir=ctx.workdir,
+                        second_timeout_s=getattr(ctx, 'second_timeout', 60), timeout_s=300)
+    if ctx.tier != 'thorough':
+        ob.verdict.second = {'skipped': 'the 1.5k / 2.9k-entry table queries exceed the quick-tier cap of the second solvers; re-decided in the thorough tier'}
     return ob
 
 
@@ -1604,9 +1610,6 @@ def q07i(ctx, k=2, m=2):
 
 
 # =========================================================================== Q04n  lower-casing of longer test cases
-ORB = z3.Function('fold_orbit', z3.BitVecSort(32), z3.BitVecSort(32))
-
-
 def concretize_all(ctx, term):
     t = concretize_lowercase(ctx, term)
     v0 = z3.Var(0, z3.BitVecSort(32))
@@ -1866,7 +1869,7 @@ def first_widening(clusters, with_position=False):
                             names[x] = chr(ord('a') + len(names))
                         return names[x]
                     pre = '.'.join('%s{%d}' % (nm(pc), pk) if pk > 1 else nm(pc) for pc, pk in path)
-                    lab = '^%s%s{%s}+%s{%d}' % (pre + '.' if pre else '', nm(c), e[1] if e[1] == e[2] else '%d,%d' % (e[1], e[2]), nm(c), k)
+                    lab = 'a{%s}+a{%d}@depth%d' % (e[1] if e[1] == e[2] else '%d,%d' % (e[1], e[2]), k, len(path))
                     if with_position:
                         return lab, (ci, len(path))
                     return lab
@@ -2143,10 +2146,347 @@ def qlem(ctx):
     ob.bound = 'none'
     x = z3.BitVec('x', 32)
     lem = z3.And(*lowercase_lemmas(x))
-    real = concretize_lowercase(ctx, z3.And(valid_char(x), z3.Not(lem)))
+    real = concretize_all(ctx, z3.And(valid_char(x), z3.Not(lem)))
     ob.paths = 1
     ob.classes_seen['table-lemma'] = 1
     ob.functions = ['(oracle tables only)']
-    ob.verdict = decide('QLEM', [], real, [x], logic='QF_BV', timeout_s=300, second=ctx.second, workdir=ctx.workdir,
-                        second_timeout_s=getattr(ctx, 'second_timeout', 60))
+    ob.verdict = decide('QLEM', [], real, [x], logic='QF_BV', timeout_s=300, second=ctx.second if ctx.tier == 'thorough' else (),
+                        workdir=ctx.workdir, second_timeout_s=getattr(ctx, 'second_timeout', 60))
+    return ob
+
+
+# =========================================================================== Q16m  minimisation preserves the language
+def right_languages(st, dfa):
+    """state -> list of words (right language), for acyclic automata"""
+    graph = dfa.get('graph')
+    finals = set(concrete(x) for x in dfa.get('final_state_indices').get('items').items)
+    edges = {}
+    for e in graph.get('edges').items:
+        s_, t_, w = concrete(e.fields[0]), concrete(e.fields[1]), e.fields[2]
+        chars, _reps, mn, mx = grapheme_fields(st, w)
+        unit = [x for u_ in chars.items for x in as_str(st, u_).items]
+        edges.setdefault(s_, []).append((t_, unit, concrete(mn), concrete(mx)))
+    memo = {}
+
+    def rl(node, stack):
+        if node in memo:
+            return memo[node]
+        if node in stack:
+            raise Inconclusive('cycle in the automaton')
+        out = [[]] if node in finals else []
+        for t_, unit, lo, hi in edges.get(node, []):
+            for k in range(lo, hi + 1):
+                for w in rl(t_, stack | {node}):
+                    out.append(unit * k + w)
+        if len(out) > 3000:
+            raise Inconclusive('right language too large')
+        memo[node] = out
+        return out
+    n = len(graph.get('nodes').items)
+    return {i: rl(i, frozenset()) for i in range(n)}, edges
+
+
+def set_eq(A, B):
+    inc = [z3.Or(*[words_eq(w, t) for t in B]) if B else z3.BoolVal(False) for w in A]
+    exc = [z3.Or(*[words_eq(w, t) for w in A]) if A else z3.BoolVal(False) for t in B]
+    return z3.And(*(inc + exc)) if (inc or exc) else z3.BoolVal(True)
+
+
+@guarded
+def q16m(ctx, shape=(2, 2), max_count=1, letters=False, with_empty=False):
+    """Q16m: Dfa::minimize + recreate_graph preserve the language of the trie; with single-symbol edges the result is deterministic and no two states share a right language"""
+    ob = Obligation('Q16m[%s%s]%s%s' % (','.join(map(str, shape)), '+empty' if with_empty else '', '' if max_count == 1 else '[counts<=%d]' % max_count,
+                                        '[letters]' if letters else ''), q16m.__doc__)
+    ob.domain = ('%d clusters of %s graphemes%s (one code point each, %s, neighbouring graphemes differ), repeat counts %s; the trie of '
+                 'Dfa::from(.., false) is the reference' % (len(shape), '/'.join(map(str, shape)), ' plus the empty test case' if with_empty else '',
+                                                           'a..z' if letters else 'every scalar value', '1' if max_count == 1 else '1..=%d' % max_count))
+    ob.bound = 'exactly this shape'
+    import itertools
+    ex = ctx.new_exec()
+    cvars = [[z3.BitVec('v%d_%d' % (i, j), 32) for j in range(n)] for i, n in enumerate(shape)]
+    flatc = [c for cs_ in cvars for c in cs_]
+    kvars = [[z3.BitVec('k%d_%d' % (i, j), 32) for j in range(n)] for i, n in enumerate(shape)]
+    flatk = [k for ks in kvars for k in ks]
+    assume = []
+    for i, n in enumerate(shape):
+        for j in range(n):
+            c = cvars[i][j]
+            assume.append(valid_char(c))
+            if letters:
+                assume += [z3.UGE(c, BV(0x61, 32)), z3.ULE(c, BV(0x7A, 32))]
+            if j:
+                assume.append(c != cvars[i][j - 1])
+    kassume = [z3.And(z3.UGE(k, BV(1, 32)), z3.ULE(k, BV(max_count, 32))) for k in flatk]
+    fn = ctx.mir.one_fn(r'^dfa::<impl at [^>]*>::from$')
+    t0 = time.time()
+    bads = []
+    npaths = 0
+    for counts in itertools.product(range(1, max_count + 1), repeat=len(flatk)):
+        here = z3.And(*[k == BV(v, 32) for k, v in zip(flatk, counts)])
+        st = State(pc=list(assume))
+        cfgv = config_value(ctx)
+        cfg = st.ref(cfgv)
+        flags = (cfgv.get('is_capturing_group_enabled'), cfgv.get('is_output_colorized'), cfgv.get('is_verbose_mode_enabled'))
+        clusters, expected = [], []
+        it = iter(counts)
+        if with_empty:
+            clusters.append(cluster_value(ctx, st, [], cfg))
+            expected.append([])
+        for i, n in enumerate(shape):
+            gs, word = [], []
+            for j in range(n):
+                kk = next(it)
+                gs.append(grapheme_value(ctx, st, [[cvars[i][j]]], kk, kk, flags))
+                word += [cvars[i][j]] * kk
+            clusters.append(cluster_value(ctx, st, gs, cfg))
+            expected.append(word)
+        lst = st.ref(ListV(clusters))
+        for o in ex.run_fn(st, fn, [lst, z3.BoolVal(False), cfg]):
+            if o.panic:
+                bads.append(z3.And(here, *o.st.pc))
+                continue
+            trie_words, _n, _e = trie_language(o.st, o.val)
+            for o2 in ex.run_fn(o.st, fn, [lst, z3.BoolVal(True), cfg]):
+                npaths += 1
+                if o2.panic:
+                    bads.append(z3.And(here, *o2.st.pc))
+                    ob.classes_seen['panic'] = ob.classes_seen.get('panic', 0) + 1
+                    continue
+                min_words, n_nodes, n_edges = trie_language(o2.st, o2.val)
+                cls = 'states=%d' % n_nodes
+                ob.classes_seen[cls] = ob.classes_seen.get(cls, 0) + 1
+                conds = [set_eq(trie_words, min_words)]
+                if max_count == 1:
+                    rls, edges = right_languages(o2.st, o2.val)
+                    # deterministic: no state has two outgoing edges with the same label
+                    for s_, outs_ in edges.items():
+                        for a_ in range(len(outs_)):
+                            for b_ in range(a_ + 1, len(outs_)):
+                                conds.append(z3.Not(words_eq(outs_[a_][1], outs_[b_][1])))
+                    # minimal: reachable states have pairwise different right languages
+                    init = o2.val.get('initial_state').p[0]
+                    reach, todo = {init}, [init]
+                    while todo:
+                        x = todo.pop()
+                        for t_, _u, _lo, _hi in edges.get(x, []):
+                            if t_ not in reach:
+                                reach.add(t_)
+                                todo.append(t_)
+                    rs = sorted(reach)
+                    for a_ in range(len(rs)):
+                        for b_ in range(a_ + 1, len(rs)):
+                            conds.append(z3.Not(set_eq(rls[rs[a_]], rls[rs[b_]])))
+                bads.append(z3.And(here, *o2.st.pc, z3.Not(z3.And(*conds))))
+    ctx.finish(ob, ex, t0)
+    ob.paths = npaths
+    allv = flatc + flatk
+
+    def blocker(m):
+        vals = [m.eval(c, model_completion=True).as_long() for c in flatc]
+        parts = [k == m.eval(k, model_completion=True) for k in flatk]
+        for i in range(len(flatc)):
+            for j in range(i + 1, len(flatc)):
+                parts.append((flatc[i] == flatc[j]) if vals[i] == vals[j] else (flatc[i] != flatc[j]))
+        return z3.Not(z3.And(*parts))
+    ob.verdict = decide(ob.qid, assume + kassume + ob.defs, z3.Or(*bads) if bads else z3.BoolVal(False), allv, all_sat=True,
+                        max_models=ctx.cap('Q16m'), second=ctx.second, workdir=ctx.workdir,
+                        second_timeout_s=getattr(ctx, 'second_timeout', 60), blocker=blocker)
+    return ob
+
+
+# =========================================================================== Q16e  state elimination (Expression::from)
+def cluster_words(st, cl):
+    """words denoted by a GraphemeCluster inside a Literal: every grapheme contributes value^k for k in min..=max"""
+    cl = deref(st, cl)
+    words = [[]]
+    for g in cl.get('graphemes').items:
+        chars, reps, mn, mx = grapheme_fields(st, g)
+        unit = [x for u_ in chars.items for x in as_str(st, u_).items]
+        lo, hi = concrete(mn), concrete(mx)
+        if lo is None or hi is None:
+            raise Inconclusive('grapheme with a symbolic count inside an expression')
+        words = [w + unit * k for w in words for k in range(lo, hi + 1)]
+    return words
+
+
+def expression_language(st, e, limit=3000):
+    """the (finite) language of an Expression value as lists of code-point terms"""
+    e = deref(st, e)
+    if not isinstance(e, EnumV) or e.enum != 'Expression':
+        raise Inconclusive('not an Expression: %r' % (e,))
+    v = e.variant
+    if v == 'Literal':
+        return cluster_words(st, e.fields[0])
+    if v == 'CharacterClass':
+        return [[x] for x in deref(st, e.fields[0]).get('items').items]
+    if v == 'Alternation':
+        out = []
+        for o in deref(st, e.fields[0]).items:
+            out += expression_language(st, o, limit)
+        if len(out) > limit:
+            raise Inconclusive('expression language too large')
+        return out
+    if v == 'Concatenation':
+        a = expression_language(st, e.fields[0], limit)
+        b = expression_language(st, e.fields[1], limit)
+        if len(a) * len(b) > limit:
+            raise Inconclusive('expression language too large')
+        return [x + y for x in a for y in b]
+    if v == 'Repetition':
+        q = deref(st, e.fields[1])
+        if q.variant != 'QuestionMark':
+            raise Inconclusive('Kleene star in the expression of an acyclic automaton')
+        return expression_language(st, e.fields[0], limit) + [[]]
+    raise Inconclusive('expression variant ' + v)
+
+
+def expr_shape(st, e):
+    e = deref(st, e)
+    v = e.variant
+    if v == 'Literal':
+        return 'L%d' % len(deref(st, e.fields[0]).get('graphemes').items)
+    if v == 'CharacterClass':
+        return 'C%d' % len(deref(st, e.fields[0]).get('items').items)
+    if v == 'Alternation':
+        return 'A(%s)' % '|'.join(expr_shape(st, o) for o in deref(st, e.fields[0]).items)
+    if v == 'Concatenation':
+        return '(%s.%s)' % (expr_shape(st, e.fields[0]), expr_shape(st, e.fields[1]))
+    if v == 'Repetition':
+        return '%s?' % expr_shape(st, e.fields[0])
+    return v
+
+
+@guarded
+def q16e(ctx, shape=(2, 2), letters=False, minimized=True):
+    """Q16e: the expression obtained by state elimination (Expression::from) denotes the language of the automaton it is given"""
+    ob = Obligation('Q16e[%s]%s%s' % (','.join(map(str, shape)), '' if minimized else '[trie]', '[letters]' if letters else ''), q16e.__doc__)
+    ob.domain = ('%d clusters of %s one-code-point graphemes (%s, neighbouring graphemes differ, counts 1): Dfa::from(.., %s) then '
+                 'Expression::from; all settings symbolic' % (len(shape), '/'.join(map(str, shape)), 'a..z' if letters else 'every scalar value',
+                                                              'true' if minimized else 'false'))
+    ob.bound = 'exactly this shape'
+    ex = ctx.new_exec()
+    cvars = [[z3.BitVec('v%d_%d' % (i, j), 32) for j in range(n)] for i, n in enumerate(shape)]
+    flatc = [c for cs_ in cvars for c in cs_]
+    assume = []
+    for i, n in enumerate(shape):
+        for j in range(n):
+            c = cvars[i][j]
+            assume.append(valid_char(c))
+            if letters:
+                assume += [z3.UGE(c, BV(0x61, 32)), z3.ULE(c, BV(0x7A, 32))]
+            if j:
+                assume.append(c != cvars[i][j - 1])
+    st = State(pc=list(assume))
+    cfgv = config_value(ctx)
+    cfg = st.ref(cfgv)
+    flags = (cfgv.get('is_capturing_group_enabled'), cfgv.get('is_output_colorized'), cfgv.get('is_verbose_mode_enabled'))
+    clusters = []
+    for i, n in enumerate(shape):
+        clusters.append(cluster_value(ctx, st, [grapheme_value(ctx, st, [[cvars[i][j]]], 1, 1, flags) for j in range(n)], cfg))
+    lst = st.ref(ListV(clusters))
+    f_dfa = ctx.mir.one_fn(r'^dfa::<impl at [^>]*>::from$')
+    f_expr = ctx.mir.one_fn(r'^expression::<impl at [^>]*>::from$')
+    gc_models = [(P(r'^<str as UnicodeSegmentation>::graphemes$'), m_graphemes_one_cluster_or_empty)] + make_gc_models(ctx)
+    ex = ctx.new_exec(gc_models)
+    t0 = time.time()
+    bads = []
+    npaths = 0
+    for o in ex.run_fn(st, f_dfa, [lst, z3.BoolVal(minimized), cfg]):
+        if o.panic:
+            bads.append(z3.And(*o.st.pc))
+            continue
+        dfa_words, n_nodes, _e = trie_language(o.st, o.val)
+        for o2 in ex.run_fn(o.st, f_expr, [o.val, cfg]):
+            npaths += 1
+            if o2.panic:
+                bads.append(z3.And(*o2.st.pc))
+                ob.classes_seen['panic'] = ob.classes_seen.get('panic', 0) + 1
+                continue
+            words = expression_language(o2.st, o2.val)
+            cls = expr_shape(o2.st, o2.val)
+            ob.classes_seen[cls] = ob.classes_seen.get(cls, 0) + 1
+            bads.append(z3.And(*o2.st.pc, z3.Not(set_eq(dfa_words, words))))
+    ctx.finish(ob, ex, t0)
+    ob.paths = npaths
+
+    def blocker(m):
+        vals = [m.eval(c, model_completion=True).as_long() for c in flatc]
+        parts = []
+        for i in range(len(flatc)):
+            for j in range(i + 1, len(flatc)):
+                parts.append((flatc[i] == flatc[j]) if vals[i] == vals[j] else (flatc[i] != flatc[j]))
+        return z3.Not(z3.And(*parts)) if parts else z3.BoolVal(False)
+    ob.verdict = decide(ob.qid, assume + ob.defs, z3.Or(*bads) if bads else z3.BoolVal(False), flatc, all_sat=True,
+                        max_models=ctx.cap('Q16e'), second=ctx.second, workdir=ctx.workdir,
+                        second_timeout_s=getattr(ctx, 'second_timeout', 60), blocker=blocker)
+    return ob
+
+
+def m_graphemes_one_cluster_or_empty(ex, st, fr, callee, a, depth):
+    """stub: graphemes("") yields nothing; any other input is ASSUMED to be one extended grapheme cluster"""
+    s_ = as_str(st, a[0])
+    return IterV('list', items=()) if not s_.items else IterV('list', items=(a[0],))
+
+
+# =========================================================================== Q02e  the whole pipeline up to the AST (RegExp::from)
+def m_graphemes_per_letter(ex, st, fr, callee, a, depth):
+    """stub: UnicodeSegmentation::graphemes on a string of ASCII LETTERS yields one cluster per letter (the obligation assumes a..z)"""
+    s_ = as_str(st, a[0])
+    return IterV('list', items=tuple(st.ref(SymStr([x])) for x in s_.items))
+
+
+@guarded
+def q02e(ctx, lens=(2, 2), with_empty=False, clause='exact', repetitions=False):
+    """Q02e: RegExp::from (the whole pipeline up to the AST) builds an expression whose language is exactly the set of test cases"""
+    name = {'exact': 'Q02e', 'sound': 'Q01e'}[clause]
+    ob = Obligation('%s[%s%s]%s' % (name, ','.join(map(str, lens)), '+empty' if with_empty else '', '[repetitions]' if repetitions else ''),
+                    q02e.__doc__ if clause == 'exact' else 'Q01e: RegExp::from builds an expression whose language contains every test case')
+    ob.domain = ('%d test cases of %s letters a..z (every equality pattern)%s; default settings%s (anchors on, so the self-check branch that '
+                 'compiles the candidate with the regex engine is not taken)'
+                 % (len(lens), '/'.join(map(str, lens)), ' plus the empty test case' if with_empty else '',
+                    ' + conversion of repetitions' if repetitions else ''))
+    ob.bound = 'exactly these lengths'
+    cases = [[z3.BitVec('s%d_%d' % (i, j), 32) for j in range(n)] for i, n in enumerate(lens)]
+    allv = [v for c in cases for v in c]
+    assume = [z3.And(z3.UGE(v, BV(0x61, 32)), z3.ULE(v, BV(0x7A, 32))) for v in allv]
+    fields = ctx.mir.structs.get('RegExpConfig')
+    off = {k: (BV(1, 32) if k.startswith('minimum_') else z3.BoolVal(False)) for k in fields}
+    off['is_repetition_converted'] = z3.BoolVal(bool(repetitions))
+    cfgv = config_value(ctx, off)
+    ex = ctx.new_exec([(P(r'^<str as UnicodeSegmentation>::graphemes$'), m_graphemes_per_letter)] + make_gc_models(ctx))
+    st = State(pc=list(assume))
+    cfg = st.ref(cfgv)
+    inputs = ([[]] if with_empty else []) + cases
+    v = st.ref(ListV([SymStr(c) for c in inputs]))
+    fn = ctx.mir.one_fn(r'^regexp::<impl at [^>]*>::from$')
+    t0 = time.time()
+    outs = ex.run_fn(st, fn, [v, cfg])
+    ctx.finish(ob, ex, t0)
+    ob.paths = len(outs)
+    bads = []
+    for o in outs:
+        if o.panic:
+            bads.append(z3.And(*o.st.pc))
+            ob.classes_seen['panic'] = ob.classes_seen.get('panic', 0) + 1
+            continue
+        ast = deref(o.st, o.val).get('ast')
+        words = expression_language(o.st, ast)
+        cls = expr_shape(o.st, ast)
+        ob.classes_seen[cls] = ob.classes_seen.get(cls, 0) + 1
+        if clause == 'exact':
+            bads.append(z3.And(*o.st.pc, z3.Not(set_eq(inputs, words))))
+        else:
+            inc = [z3.Or(*[words_eq(w, t) for t in words]) if words else z3.BoolVal(False) for w in inputs]
+            bads.append(z3.And(*o.st.pc, z3.Not(z3.And(*inc))))
+
+    def blocker(m):
+        vals = [m.eval(c, model_completion=True).as_long() for c in allv]
+        parts = []
+        for i in range(len(allv)):
+            for j in range(i + 1, len(allv)):
+                parts.append((allv[i] == allv[j]) if vals[i] == vals[j] else (allv[i] != allv[j]))
+        return z3.Not(z3.And(*parts)) if parts else z3.BoolVal(False)
+    ob.verdict = decide(ob.qid, assume + ob.defs, z3.Or(*bads) if bads else z3.BoolVal(False), allv, all_sat=True,
+                        max_models=ctx.cap(name), second=ctx.second, workdir=ctx.workdir,
+                        second_timeout_s=getattr(ctx, 'second_timeout', 60), blocker=blocker)
     return ob
